@@ -1,6 +1,7 @@
 mod case;
 mod checks;
 mod corpus;
+mod corrupt;
 mod engine;
 mod oracle;
 mod report;
@@ -92,6 +93,8 @@ fn main() {
         let res = match what.as_str() {
             "C19" => Some(checks::c19::run(&ctx)),
             "C03" => Some(checks::c03::run(&ctx)),
+            "C04" => Some(checks::c04::run(&ctx)),
+            "C16" => Some(checks::c16::run(&ctx)),
             "C01" => Some(checks::c01::run(&ctx)),
             "C18" => Some(checks::c18::run(&ctx)),
             _ => None,
